@@ -2,6 +2,7 @@ package main
 
 import (
 	"fmt"
+	"go/token"
 	"go/types"
 	"sort"
 	"strings"
@@ -319,6 +320,45 @@ func (w *World) checkOffset(si *siteInfo, base *PVar, a PosAlt, terms []IExpr, w
 				}
 			}
 			return okAlt()
+		}
+		if bo, ok := bv.(*ssa.BinOp); ok && (bo.Op == token.EQL || bo.Op == token.NEQ) && a.src != nil {
+			// `right := p.Token.Kind == "TRUE"`: the boolean is a test of the kind of the very token whose start is the
+			// base (the base's source is still the current token where the test is made): decided per kind of the fact
+			for _, side := range [][2]ssa.Value{{bo.X, bo.Y}, {bo.Y, bo.X}} {
+				k, isK := constString(side[1])
+				if !isK {
+					continue
+				}
+				ld, isL := isLoad(stripConv(side[0]))
+				if !isL {
+					continue
+				}
+				fa, isFA := ld.(*ssa.FieldAddr)
+				if !isFA || fieldAddrName(fa) != "Kind" || !w.isTokenPtr(fa.X.Type()) {
+					continue
+				}
+				cur, _ := pf.tk.tokenSources(fa.X)
+				st := pf.tk.StateBefore(bo)
+				if !cur || st == nil || !st.linked[a.src] {
+					return bad("the boolean field " + condVar + " tests the kind of another token than the one the base points at")
+				}
+				atoms, fin := a.fact.Finite()
+				if !fin || len(atoms) == 0 {
+					return bad("the kinds of the token at " + base.Name + " are not enumerated by the guards on the path")
+				}
+				for _, atom := range atoms {
+					val := (atom == k) == (bo.Op == token.EQL)
+					n := condE
+					if val {
+						n = condT
+					}
+					l, known := atomLen(atom)
+					if !known || a.off+sum+n != l {
+						return bad(fmt.Sprintf("when the token is %s, %s=%v and %d is added", atom, condVar, val, sum+n))
+					}
+				}
+				return okAlt()
+			}
 		}
 		return bad("cannot relate the boolean field " + condVar + " to the token")
 	default:
